@@ -162,6 +162,8 @@ class Kinds(object):
             ("div", q, lambda o, a, x: o / 2), ("add", q, lambda o, a, x: o + a), ("sub", q, lambda o, a, x: o - a),
             ("matmul", q, lambda o, a, x: o @ a), ("copy", q, lambda o, a, x: o.copy()), ("pauli()", q, lambda o, a, x: P.pauli(o)),
             ("expect_by_state", q, lambda o, a, x: x["state"].expect(o)),
+            ("diagonalize", q, lambda o, a, x: C.diagonalize(o, 0)), ("diagonalize_1", q, lambda o, a, x: C.diagonalize(o, 1)),
+            ("diagonalize_causal", q, lambda o, a, x: C.diagonalize(o, 1, causal=True)),
             ("rotate_by", ip, lambda o, a, x: o.rotate_by(x["gen"])), ("rotate_by_mask", ip, lambda o, a, x: o.rotate_by(x["gen1"], mask_of(be_, [2], N))),
             ("transform_by", ip, lambda o, a, x: o.transform_by(x["map"])), ("transform_by_mask", ip, lambda o, a, x: o.transform_by(x["map1"], mask_of(be_, [1], N))),
         ]
@@ -186,13 +188,15 @@ class Kinds(object):
         ]
         if py:
             m["Pauli"].append(("add_num", q, lambda o, a, x: o + 2))
-            m["PauliPolynomial"] += [("add_num", q, lambda o, a, x: o + 1.5), ("radd_num", q, lambda o, a, x: 1.5 + o), ("add_list", q, lambda o, a, x: o + x["list"]),
+            m["PauliPolynomial"] += [("diagonalize_term", q, lambda o, a, x: C.diagonalize(o[0], 0)), ("diagonalize_term_1", q, lambda o, a, x: C.diagonalize(o[len(o) - 1], 1)),
+                                     ("add_num", q, lambda o, a, x: o + 1.5), ("radd_num", q, lambda o, a, x: 1.5 + o), ("add_list", q, lambda o, a, x: o + x["list"]),
                                      ("SBRG", q, lambda o, a, x: C.SBRG(o))]
             m["PauliMonomial"] = [
                 ("repr", q, lambda o, a, x: repr(o)), ("neg", q, lambda o, a, x: -o), ("rmul", q, lambda o, a, x: (1 + 2j) * o), ("div", q, lambda o, a, x: o / 4),
                 ("add", q, lambda o, a, x: o + a), ("sub", q, lambda o, a, x: o - a), ("matmul", q, lambda o, a, x: o @ a), ("trace", q, lambda o, a, x: o.trace()),
                 ("copy", q, lambda o, a, x: o.copy()), ("as_polynomial", q, lambda o, a, x: o.as_polynomial()), ("inverse", q, lambda o, a, x: o.inverse()),
                 ("to_qutip", q, lambda o, a, x: o.to_qutip()), ("expect_by_state", q, lambda o, a, x: x["state"].expect(o)),
+                ("diagonalize", q, lambda o, a, x: C.diagonalize(o, 0)), ("diagonalize_1", q, lambda o, a, x: C.diagonalize(o, 1)),
                 ("rotate_by", ip, lambda o, a, x: o.rotate_by(x["gen"])), ("set_c", ip, lambda o, a, x: o.set_c(3.0)),
             ]
         m["CliffordMap"] = [
